@@ -54,6 +54,10 @@ def run(ctx):
     m = P.module(MOD)
     maps = sorted(n for n in m.functions if n.startswith('map_') and sig_of(n))
     ctx.cover['maps'] = maps
+    MAY_NONE.clear()
+    for name in maps:
+        MAY_NONE[name] = any(e.kind == 'return' and e.value == NONE for e in Evaluator(P).run(m.functions[name]))
+    ctx.cover['maps_that_may_return_none'] = sorted(k for k, v in MAY_NONE.items() if v)
     for name in maps:
         check_map(ctx, m.functions[name])
     rule_squeeze(ctx, 'C16.R3')
@@ -87,6 +91,9 @@ def typeof(t, fi, st, src_level, notes):
             if it[0] == 'scalar':
                 if it[1] != base[1]:
                     raise TypeErr('%s is indexed by a %s index (it maps %s -> %s)' % (show(t[1]), it[1], base[1], base[2]))
+                if len(it) > 3 and it[3] and not _guarded_none(idx, st):
+                    raise Sentinel('%s may be None ("no such item") and is used as an index into %s'
+                                   % (show(idx)[:40], show(t[1])))
                 if it[2] and not _guarded(idx, st):
                     raise Sentinel('%s may be the -1 "none" marker and is used as an index into %s' % (show(idx)[:40], show(t[1])))
                 return ('scalar', base[2], base[3])
@@ -139,13 +146,16 @@ def typeof(t, fi, st, src_level, notes):
             if at[0] == 'scalar' and at[2] and not _guarded(arg, st):
                 raise Sentinel('%s may be the -1 "none" marker and is passed to %s as an index'
                                % (show(arg)[:40], name.split('.')[-1]))
+            if at[0] == 'scalar' and len(at) > 3 and at[3] and not _guarded_none(arg, st):
+                raise Sentinel('%s may be None ("no such item") and is passed to %s as an index'
+                               % (show(arg)[:40], name.split('.')[-1]))
             if at[0] == 'none':
                 raise TypeErr('None is passed to %s as an index' % name.split('.')[-1])
             if sg[2] == 'set':
                 return ('set', sg[1])
             # upward scalar maps: may be -1 only for map_sample_to_cycle (raw vector read)
             callee = name.split('.')[-1]
-            return ('scalar', sg[1], callee == 'map_sample_to_cycle')
+            return ('scalar', sg[1], callee == 'map_sample_to_cycle', MAY_NONE.get(callee, False))
         if name in ('numpy.hstack', 'numpy.concatenate', 'numpy.squeeze', 'numpy.array', 'numpy.atleast_1d',
                     'numpy.unique', 'numpy.sort') and t[2]:
             a = t[2][0]
@@ -159,6 +169,11 @@ def typeof(t, fi, st, src_level, notes):
             ts = [typeof(x, fi, st, src_level, notes) for x in t[2]]
             lv = {x[1] for x in ts if x[0] == 'scalar'}
             if len(lv) == 1:
+                if 'augmented' not in fi.name:
+                    # a range between two indices also contains the items in between, which need not map back
+                    # (unlabelled gaps between cycles, unselected cycles): only the augmented maps promise a span
+                    raise TypeErr('the result is the filled range %s: items between its end points that do not '
+                                  'belong to the source item (unlabelled gaps) are included' % show(t)[:70])
                 return ('set', lv.pop())
             return ('other',)
         if name in ('numpy.diff', 'builtins.len', 'numpy.all', 'numpy.any'):
@@ -179,6 +194,18 @@ def typeof(t, fi, st, src_level, notes):
 
 def _bind_comp(st):
     return st
+
+
+MAY_NONE = {}       # map name -> some return path returns None (filled by run() from the evaluated paths)
+
+
+def _guarded_none(term, st):
+    """the path proves term is not None"""
+    conds = st.conds if hasattr(st, 'conds') else []
+    for c, truth, ln in conds:
+        if c[0] == 'cmp' and c[2] == term and c[3] == NONE and ((c[1] == 'is' and not truth) or (c[1] == 'isnot' and truth)):
+            return True
+    return False
 
 
 def _guarded(term, st):
